@@ -220,7 +220,21 @@ def run(ch, config, res):
                         break
                     srv.fault_weights = [1, 0, 0, 0, 0, 0, 0, 0]
                     with ch.scope("recover"):
-                        connect(client, "op %d reconnect after a lost connection" % i)
+                        if wl.flag("refused_first", 1, 3):
+                            # the first attempt to come back is refused (a mechanism the server does not announce): the object
+                            # must not believe it is still authenticated from the session it lost
+                            other = "LOGIN" if sasl[0] != "LOGIN" else "PLAIN"
+                            ob = world.call(client, "connect", "user", "password", authmech=other)
+                            if ob.kind == "ret" and ob.value is True:
+                                fail("C15.mismatch", "op %d: connect(authmech=%r) returned True although the server announces %s only" % (i, other, sasl[0]))
+                            o2 = world.call(client, "listscripts")
+                            if not (o2.kind == "exc" and o2.exc_type == "Error" and not o2.writes):
+                                fail("C15.server-violation", "op %d: after a lost connection and a refused reconnect listscripts() %r and wrote %r (Error and nothing written expected)" % (
+                                    i, o2, [w[3] for w in o2.writes]))
+                            check_violations("op %d refused reconnect after a lost connection" % i)
+                            kinds.add(("crash+badreconnect", "refused"))
+                        if failure[0] is None:
+                            connect(client, "op %d reconnect after a lost connection" % i)
                     continue
             recs = [r for r in srv.log if r.call_id == o.call_id]
             label = "op %d client %d %s%r" % (i, ci, op, args)
